@@ -470,4 +470,42 @@ def rule_j(ctx: Ctx) -> None:
                 'blocks agree.')
 
 
-RULES = [rule_a, rule_b, rule_c, rule_d, rule_e, rule_f, rule_g, rule_h, rule_i, rule_j]
+def rule_k(ctx: Ctx) -> None:
+    """An absent attribute with a default or fixed value has that value, an absent *element* has no value at all (a default fills an
+    empty element, never a missing one).  The `None` slot of FieldValueSelector.value_constraints is what get_value() returns for a
+    field that selects nothing, so only an attribute declaration may fill it."""
+    rule = 'C08.k'
+    f = ctx.idx.method('xmlschema.validators.identities.FieldValueSelector', '__init__')
+    ctx.analysed(f.qualname)
+    g = cfg_of(ctx, f)
+    ws = []
+    for n in g.nodes:
+        if n.kind != 'stmt':
+            continue
+        tg = []
+        if isinstance(n.ast, ast.Assign):
+            tg = n.ast.targets
+        elif isinstance(n.ast, (ast.AugAssign, ast.AnnAssign)):
+            tg = [n.ast.target]
+        flat = []
+        for t in tg:
+            flat += list(t.elts) if isinstance(t, (ast.Tuple, ast.List)) else [t]
+        if any(isinstance(t, ast.Subscript) and text(t.value) == 'self.value_constraints' and isinstance(t.slice, ast.Constant)
+               and t.slice.value is None for t in flat):
+            ws.append(n)
+        for c in calls(n.ast):
+            if isinstance(c.func, ast.Attribute) and text(c.func.value) == 'self.value_constraints' and c.func.attr in ('setdefault', 'update', '__setitem__') \
+                    and any(isinstance(a, ast.Constant) and a.value is None for a in c.args):
+                ws.append(n)
+    ctx.floor(rule, 'writes of the absent-field slot value_constraints[None]', len(ws), 1)
+    for n in ws:
+        gs = guards(ctx, f, n)
+        ok = any(lab == 'T' and t.replace(' ', '') in ('isinstance(comp,XsdAttribute)', 'isinstance(node,AttributeNode)') for t, lab in gs)
+        ctx.ob(rule, f'FieldValueSelector.__init__: `{text(n.ast)[:60]}` runs for an attribute declaration only', f.loc(n.ast), ok,
+               '' if ok else 'the value constraint of an element declaration becomes the value of an absent field: a key-selected node that lacks the element is accepted '
+               'and a unique constraint counts the absent element as a duplicate of its default/fixed value', key='FieldValueSelector.__init__|absent-slot')
+    ctx.explain('C08.k: every write of value_constraints[None] (the value of a field that selects nothing) is control dependent on '
+                '`isinstance(comp, XsdAttribute)` being true.')
+
+
+RULES = [rule_a, rule_b, rule_c, rule_d, rule_e, rule_f, rule_g, rule_h, rule_i, rule_j, rule_k]
